@@ -13,6 +13,25 @@ type operatorHandler func(d *dataTreeNavigator, context Context, expressionNode 
 type compoundCalculation func(lhs *ExpressionNode, rhs *ExpressionNode) *ExpressionNode
 
 func compoundAssignFunction(d *dataTreeNavigator, context Context, expressionNode *ExpressionNode, calculation compoundCalculation) (Context, error) {
+	// like the plain binary operators: unless the nodes are evaluated together (eval-all), each current node
+	// is updated on its own, so that `.a[] | (.x += .y)` adds each element's own .y
+	var evaluateAllTogether = true
+	for matchEl := context.MatchingNodes.Front(); matchEl != nil; matchEl = matchEl.Next() {
+		evaluateAllTogether = evaluateAllTogether && matchEl.Value.(*CandidateNode).EvaluateTogether
+		if !evaluateAllTogether {
+			break
+		}
+	}
+	if !evaluateAllTogether && context.MatchingNodes.Len() > 1 {
+		for matchEl := context.MatchingNodes.Front(); matchEl != nil; matchEl = matchEl.Next() {
+			_, err := compoundAssignFunction(d, context.SingleChildContext(matchEl.Value.(*CandidateNode)), expressionNode, calculation)
+			if err != nil {
+				return Context{}, err
+			}
+		}
+		return context, nil
+	}
+
 	lhs, err := d.GetMatchingNodes(context, expressionNode.LHS)
 	if err != nil {
 		return Context{}, err
